@@ -86,3 +86,44 @@ Definition whole_unmap (g : gst) (o : op) : Prop :=
   end.
 
 Definition frame_hist_op (g : gst) (o : op) : Prop := frame_write o /\ whole_unmap g o.
+
+(* ------------------------------------------------------------------ boolean checkers of the side conditions
+   (used by the Examples of Properties_C05 and by the oracle; sound by C05Theorems.hist_okb_sound) *)
+Fixpoint hist_okb (q : gst -> op -> bool) (g : gst) (ops : list op) : bool :=
+  match ops with
+  | [] => true
+  | o :: ops' => q g o && hist_okb q (fst (gstep g o)) ops'
+  end.
+
+Definition frame_writeb (cands : list shape) (o : op) : bool :=
+  match o with
+  | OWriteMap n => existsb (fun sh => (0 <=? s_planes sh) && (n =? frame_size sh)) cands
+  | _ => true
+  end.
+
+Definition whole_unmapb (g : gst) (o : op) : bool :=
+  match o with
+  | OReadUnmap i k =>
+      match nth_error (rds (cs g)) i with
+      | Some r => if rmapped r
+                  then (avail r (high (cs g)) <=? k) || existsb (Z.eqb (idx g r + k)) (bounds g)
+                  else true
+      | None => true
+      end
+  | _ => true
+  end.
+
+Definition frame_hist_opb (cands : list shape) (g : gst) (o : op) : bool :=
+  frame_writeb cands o && whole_unmapb g o.
+
+Definition al_opb (g : gst) (o : op) : bool :=
+  match o with
+  | OWriteMap n => n mod 8 =? 0
+  | OReadUnmap i k =>
+      (k mod 8 =? 0) ||
+      match nth_error (rds (cs g)) i with
+      | Some r => if rmapped r then avail r (high (cs g)) <=? k else true
+      | None => true
+      end
+  | _ => true
+  end.
